@@ -485,6 +485,7 @@ var classOf = map[string]map[string]bool{
 	"C09": {"reuse": true},
 	"C10": {"bytesvar": true},
 	"C13": {"reenc": true},
+	"C11": {"tl1": true, "tl2": true, "reenc": true},
 }
 
 func wantVal(prop string, k int) bool {
